@@ -88,6 +88,8 @@ func (c *pipeCapture) String() string {
 
 var cmdMu sync.Mutex
 
+const cmdReturnMark = "\x00<<verif: Execute returned>>\x00"
+
 func runCmd(r cmdRun) *cmdResult {
 	cmdMu.Lock()
 	defer cmdMu.Unlock()
@@ -140,8 +142,10 @@ func runCmd(r cmdRun) *cmdResult {
 		case <-time.After(5 * time.Second):
 		}
 	}
-	res.Stdout, res.Stderr = outC.String(), errC.String()
-	// anything written after the return?
+	// mark the moment of the return inside both streams (pipes are FIFO: whatever is read after the mark was
+	// written after Execute() returned), then watch for a short while
+	outW.WriteString(cmdReturnMark)
+	errW.WriteString(cmdReturnMark)
 	time.Sleep(15 * time.Millisecond)
 	restore()
 	outW.Close()
@@ -151,8 +155,14 @@ func runCmd(r cmdRun) *cmdResult {
 	outR.Close()
 	errR.Close()
 	inR.Close()
-	all, allErr := outC.String(), errC.String()
-	res.LateStdout, res.LateStderr = strings.TrimPrefix(all, res.Stdout), strings.TrimPrefix(allErr, res.Stderr)
+	split := func(all string) (string, string) {
+		if i := strings.Index(all, cmdReturnMark); i >= 0 {
+			return all[:i], all[i+len(cmdReturnMark):]
+		}
+		return all, ""
+	}
+	res.Stdout, res.LateStdout = split(outC.String())
+	res.Stderr, res.LateStderr = split(errC.String())
 	r.World.Finish()
 	vwire.Install(nil)
 	for _, s := range r.World.SocketList() {
